@@ -8,7 +8,7 @@ CLAIMED = {
    text='Unbounded proof (all N, batch sizes, bucket counts, all iterations) that the real BatchView/PaddedBatchView '
         'loops, _pick_final_batch_size and the dict-level helpers (slice_examples, num_examples, attach_mask, pad_examples) '
         'meet contracts whose top-level postconditions are the property statement: exact order-preserving partition, full '
-        'batches except the last, prefix mask, zero padding with unchanged dtype/shape, minimal bucketed final size.',
+        'batches except the last, prefix mask, zero padding with unchanged dtype/shape, minimal bucketed final size. Added since: entry.override / entry.override.none on the public entry points (hparams object + keyword overrides, falsy and None values included) and view.stateless:<class> (no view method keeps state on the view or mutates what it did not create).',
    note='Trusted: numpy slicing/zeros/arange contracts, TABLE abstraction of Examples, per-example preprocessor hypothesis, '
         'pyvc VC generator and its Python-subset semantics; induction schema for the halving lemma.'),
  'C04': dict(
@@ -27,7 +27,7 @@ CLAIMED = {
         'for a differing preprocessor object / feature set) and for RepeatableIterator (class invariant: first pass copies, later '
         'passes replay exactly the buffer; builtin containers never mutated). buffered_shuffle: output is a permutation of the '
         'input (ghost witness of an arbitrary item, quantified buffer invariants, unbounded). shuffle_repeat_batch_federated_data: '
-        'seed and argument plumbing for every integer seed. buffered_shuffle_batch_client_datasets: bounded native stand-in only.',
+        'seed and argument plumbing for every integer seed. buffered_shuffle_batch_client_datasets: bounded native stand-in only. Added since: pbfd.args (padded_batch_federated_data forwards the hparams object and every keyword), srbfd.seed / srbfd.examples.args, subset order on feature sets.',
    note='Trusted: TABLE contracts of the helpers (proved in C03), FLAT ghost concatenation axioms, per-example preprocessor '
         'hypothesis, parametricity of buffered_shuffle in its items, RandomState.shuffle permutes. Bounded (not proved): two-level '
         'shuffle composition. Not covered: non-trivial order.'),
@@ -45,7 +45,7 @@ CLAIMED = {
         'all ids, n) with the datasets of those ids and keys split(PRNGKey(r), n)[i] — terms over (seed, r) only — advances only the '
         'round counter (no cached generator, id list never mutated, no global numpy RNG), that set_round_num seats it, and that the '
         'streaming sampler keeps position = round * cohort so a sampler started at r replays rounds r, r+1, ... of one started at 0; '
-        'the id list is the enumeration order of the dataset (set() of a symbolic sequence is modelled as an arbitrary, hash-seed dependent order).',
+        'the id list is the enumeration order of the dataset (set() of a symbolic sequence is modelled as an arbitrary, hash-seed dependent order). Added since: stream.sources:<class> (each shuffled_clients builds exactly one RandomState(seed) from its unmodified seed parameter; no global RNG).',
    note='Trusted: numpy RandomState/choice and jax PRNGKey/split are deterministic (uninterpreted); choice(replace=False) distinct; '
         'primality of 2^31-1 for the seed-range remark. Restart in a fresh process (different PYTHONHASHSEED): bounded native check. '
         'Not covered: pairwise distinct keys differing between rounds (PRNG property).'),
@@ -55,7 +55,7 @@ CLAIMED = {
         'regex of the real pattern is proved equivalent to "exactly 8 digits" for all strings (z3 regex theory); numeric sort key, '
         'newest-wins load, "exactly the keep largest remain, new file first" are postconditions; run_federated_experiment is proved, '
         'from ANY crash-consistent directory and for all configurations, to return S(num_rounds) of the uninterrupted run and to call '
-        'every final evaluation once with (S(num_rounds), num_rounds) — every local bound on every path.',
+        'every final evaluation once with (S(num_rounds), num_rounds) — every local bound on every path. Added since: the C13 sampler contracts (terms over (seed, round) and the enumeration order of the dataset) and the cross-process restart check are obligations of C09; run.final.once; torn final-evaluation output natively.',
    note='Trusted: each gfile/os primitive is one atomic effect, rename atomic, pickle round trip, sorted() contract; the premise '
         '(round-deterministic algorithm, round-indexed sampler) is modelled by uninterpreted APPLY/SAMPLE (checked for the built-ins in '
         'C10/C13); root_dir without regex metacharacters. Native crash-injection driver replays refutations.'),
@@ -80,7 +80,7 @@ CLAIMED = {
         'save_state / load_state round trip, path listing, newest-wins and save_checkpoint (the file just written is retained with the '
         'saved state whenever its round is >= all existing ones, the same round saved again included) under their C09 contracts over '
         'the FS model. A bounded native sweep '
-        '(594 cases: all dtypes x shapes x layouts x byte orders, rejects, nested trees, SQLite builder) cross-checks the axioms.',
+        '(594 cases: all dtypes x shapes x layouts x byte orders, rejects, nested trees, SQLite builder) cross-checks the axioms. Added since: frame obligations of serialization.py and native call sequences of msgpack_deserialize (a failed call must not affect the next).',
    note='Trusted: NumPy dtype/tobytes/frombuffer contracts, msgpack/zlib/pickle/sqlite3 round trips. Bounded only: nested-structure '
         'recursion of msgpack, SQLite builder round trip.'),
  'C07': dict(
@@ -88,7 +88,7 @@ CLAIMED = {
         'tree_sum loops compute sum(w_i p_i)/sum(w_i) with the zero guard, stay inside the [min,max] hull, consume a one-pass iterator '
         'exactly once, never donate or alias a caller buffer (ownership tracked through jax.jit(donate_argnums)), that '
         'tree_clip_by_global_norm is s*t with 0<=s<=1, norm <= bound, identity below the bound; plus an IEEE float32 obligation '
-        '(z3 FP theory) for the zero-norm corner.',
+        '(z3 FP theory) for the zero-norm corner. Added since: OWN frame obligations of tree_util.py / aggregator.py (no in-place operator on an object reachable from an argument - weights included -, no state across calls).',
    note='Trusted: R arithmetic for arrays, tree_map leafwise, jit = identity + donation, norm homogeneity, tree_l2_squared is the '
         'squared norm; order independence is commutativity of + (not a separate obligation). Not covered: rounding error size.'),
  'C05': dict(
@@ -97,7 +97,7 @@ CLAIMED = {
         '(inductive lemma), of evaluate_batch = reduce over rows of (mask ? single-example stat : zero) whatever padded rows contain, '
         'of _evaluate_model_step (own mask or all-True default, merge with the previous stat) and evaluate_model = fold from zero(); '
         'zero() of each built-in metric is the identity of the Stat type its evaluate_example returns; safe_div NaN-freedom in IEEE float32; '
-        'bool-typed weights are promoted by new() (DTYPE tracking).',
+        'bool-typed weights are promoted by new() (DTYPE tracking). Added since: metric.static.identity; ModelEvaluator (both entry points) and mixed padded sizes natively.',
    note='Trusted: vmap pointwise, tree_map over Stat fields, SUMROWS additivity and sum of zeros, R arithmetic. '
         'PerDomainMetric/ConfusionMatrix zeros and user metrics: bounded native check only (on violation/replay).'),
  'C06': dict(
@@ -105,7 +105,7 @@ CLAIMED = {
         'pointwise expression) that the real scalar_loss is (sum of real-row losses)/(number of real rows) + regularizer exactly once, '
         'never mentions padded rows, gives 0 + regularizer on a fully padded batch; that grad() returns jit(grad(scalar_loss)); that the '
         'average-loss step/finalise/loop accumulate real rows only and finalise once; that the Mime gradient accumulator adds '
-        'n_b * g_b and n_b with the documented key plumbing; that per-domain segment sums count real rows of that domain only.',
+        'n_b * g_b and n_b with the documented key plumbing; that per-domain segment sums count real rows of that domain only. Added since: reg.callsite:<builder> (the regularizer option reaches every gradient / loss constructor); AverageLossEvaluator, model_grad and HypCluster assignment natively.',
    note='Trusted: jax.grad extensional/linear, split deterministic, x*mask = mask?x:0, SUMROWS abstraction, R arithmetic (float32 '
         'NaN-freedom of safe_div is a C05 obligation). Precondition from the only call site: domain metrics are built without a regularizer.'),
  'C01': dict(
@@ -113,7 +113,7 @@ CLAIMED = {
         'shuffle_repeat_batch stream and key to for_each_client, accumulates sum(n_i*delta_i) and sum(n_i) (loop invariant), applies the '
         'server optimizer exactly once to (mean or exactly 0 when no example was seen, server opt state, server params), returns a fresh '
         'ServerState with exactly the optimizer outputs, one diagnostics entry per client, input state untouched; the client triple is '
-        'optimizer(grad(params, batch, split(rng)[1]), ...) with rng <- split(rng)[0] and delta = server - client params.',
+        'optimizer(grad(params, batch, split(rng)[1]), ...) with rng <- split(rng)[0] and delta = server - client params. Added since: OWN frame obligations of fed_avg.py (no closure / module state between apply calls); keyed-loss round natively.',
    note='Trusted: for_each_client contract (C02, backend independent), optimizers/grad pure (uninterpreted), distinct client ids, '
         'R arithmetic, order independence = commutativity of +. Native driver compares whole multi-round runs with a reference.'),
  'C10': dict(
@@ -122,7 +122,7 @@ CLAIMED = {
         'obligation "the mutated object was created in this call"; no nonlocal/global rebinding; no global RNG/clock/entropy; '
         'server states are frozen pytree dataclasses; every aggregator stores a key on the split[0] spine of its state key and '
         'seeds its per-client keys from a split[1] branch above it (symbolic execution of the real apply bodies); no single-use '
-        'iterator (map / zip / generator object) is stored in a returned state (frame.lazy: reading a state must not change it).',
+        'iterator (map / zip / generator object) is stored in a returned state (frame.lazy: reading a state must not change it). Added since: frame.all:<fn> (aggregated, always present), frame.lazy:<fn> (no single-use iterator stored in a returned state), hparams.passthrough (batching calls get the builder\'s hyper-parameter object unchanged).',
    note='Trusted: library calls are pure and return fresh objects except listed aliasing accessors; jax arrays immutable; '
         'value-level determinism for FedAvg/FedProx is apply.post/apply.state of C01/C12, the other algorithms rely on OWN + purity; '
         'seeded client hparams needed for determinism (seed=None draws OS entropy).'),
@@ -132,7 +132,7 @@ CLAIMED = {
         'the plain loss when mu = 0; the MimeLite client step with sgd is the FedAvg sgd step and its server step is p - lr*mean; the Mime '
         'first local step under sgd is w - eta*c (g - g + c = c); the APFL server_params component is a FedAvg step with key split(rng,3)[1] '
         'and coefficients stay in [0,1]; link obligations check every jax/jnp call of these functions against the installed library; '
-        'in every builder with a regularizer option each gradient / loss constructor receives it (reg.callsite).',
+        'in every builder with a regularizer option each gradient / loss constructor receives it (reg.callsite). Added since: reg.callsite:<builder> and the OWN frame obligations of the algorithm builders (no module-level or closure state across instances).',
    note='Trusted: sgd contract, optimizers/grad pure and extensional, for_each_client contract. Bounded native stand-in (not proved): '
         'whole-round equality for HypCluster(1 cluster), MimeLite, Mime. HypCluster differs from FedAvg on an all-empty cohort with a '
         'stateful server optimizer (documented precondition).'),
@@ -143,7 +143,7 @@ CLAIMED = {
         'domains/clients without data; APFL coefficients are clipped into [0,1] after every step and the state table is only written at '
         'participating ids; HypCluster leaves clusters without examples identical (params AND optimizer state), updates each cluster '
         'from exactly its assigned clients (loop invariant over any number of clients), assignment is argmin; MimeLite aggregates the '
-        'clipped delta; ignore_grads_haiku returns named entries equal to the input and the rest as the base optimizer.',
+        'clipped delta; ignore_grads_haiku returns named entries equal to the input and the rest as the base optimizer. Added since: apfl.keys.frame (no function of apfl.py writes a client_states table it did not create: evaluation only reads).',
    note='Trusted: sum lemmas for "sums to 1", exp > 0, haiku map/dict copies, argmin first minimum; HypCluster loop bodies executed for '
         'K = 3 / K = 2 clusters (uniform in the cluster index); _cluster_losses: native driver only.'),
  'C14': dict(
@@ -151,7 +151,7 @@ CLAIMED = {
         'expression is compared pointwise with an independent definition: target weights, token accuracy with logits mask (first '
         'argmax), top-k as (order relation of the sort = documented order, ties to the lowest index) + (kept prefix = max(0, min(k, n))), '
         'OOV = target is ONE OF the values, counts / length / truncation (any vs all), cross entropy as one-hot sum, confusion matrix '
-        'one count at (target, argmax), per-domain restriction, per-position variants.',
+        'one count at (target, argmax), per-domain restriction, per-position variants. Added since: library contracts for float32 softmax (may be exactly 0) / log (argument > 0), isneginf / isposinf classifiers; sequence cross-entropy contracts.',
    note='Trusted: argmax first maximum, argsort stable ascending, slicing/reversal, one_hot, log_softmax, .at[].set; tuples of masked / '
         'oov values of length 0..2. Not covered: extreme magnitudes; composition of the sequence cross-entropy metrics (native driver).'),
  'C20': dict(
@@ -159,7 +159,7 @@ CLAIMED = {
         'preprocess_client (point-function arrays: join loop invariant at an arbitrary snippet/position, OFF ghost with a '
         'monotonicity lemma, shift-by-one, least-multiple padding, labels in the vocabulary), model ids = dataset ids as '
         'symbolic equalities over vocab_size, CIFAR centre/random crop arithmetic and the standardisation floor against the '
-        'TensorFlow definitions, EMNIST domain_id for both id formats.',
+        'TensorFlow definitions, EMNIST domain_id for both id formats. Added since: cifar.wrapper.args / .result (preprocess_batch_tff passes height and width in order), task.wiring:<TASK> (get_task pairs dataset and model of one package and leaves the label conventions at the defaults proved by ids.*).',
    note='Trusted: numpy zeros/full/slices/fancy indexing/reshape order, TensorFlow documented definitions, StackOverflow '
         'tokenizer ids (TF lookup ops). Row independence of the packaged networks: bounded native check only (not proved).'),
  'C18': dict(
@@ -169,7 +169,7 @@ CLAIMED = {
         'Hadamard matrix of that axis size, each axis once. Powers of two are an uninterpreted P2 with instances of Lean 4 + '
         'Mathlib theorems (lean/Pow2.lean, checked by lean on every run). structured_rotation composed with its inverse over '
         'an abstract vector algebra at an arbitrary coordinate (ranks 0..3): norm, inverse, shapes, dtypes; pytree versions by '
-        'loop invariants at an arbitrary leaf (same per-leaf key); jit-static taint check.',
+        'loop invariants at an arbitrary leaf (same per-leaf key); jit-static taint check. Added since: treedef_is_leaf library contract (bare-array pytrees) in the per-leaf key argument.',
    note='Trusted math: Kronecker factorisation of Sylvester matrices, H H = d I, Parseval; einsum/reshape/pad/take semantics; '
         'ceil(log2 s) exact for s <= 2^24; reals for float32. Bounded (native): matrix identity to 2^10 (2^14 thorough), '
         'different keys give different rotations.'),
@@ -191,7 +191,7 @@ CLAIMED = {
         'with the generator consumed at its yields; donation obligations (only owned copies are donated). pmap: p_client_step with '
         'a symbolic mask (unbounded), run_block at an arbitrary lane for any number of padding rounds (unbounded), run + _blockify '
         'by symbolic execution of the real code for 23 concrete block structures (bounded). Backend choice: set/context manager '
-        'executed for every argument kind x previous selection x normal/exceptional exit; thread-local frame checks.',
+        'executed for every argument kind x previous selection x normal/exceptional exit; thread-local frame checks. Added since: backend.stateless:<class> (the function a backend returns keeps no state between calls: OWN analysis of every __call__), ctx.thread.classattrs also rejects __slots__ / attribute hooks on the threading.local subclass.',
    note='Trusted: jit/pmap compute their function lane-wise, aliasing rules, threading.local. Bounded: block structures, native '
         'backend equality for device counts 1..8, one thread interleaving.'),
 }
